@@ -235,7 +235,8 @@ class DataSaveable:
             data = self._data_with_axis(with_axis)
             io.savemat(file, {"data":data})
         else:
-            io.savemat(file, {"data":self.data})
+            # Matlab has no 1D arrays: remember the number of dimensions
+            io.savemat(file, {"data":self.data, "ndim":self.data.ndim})
 
     
     def _loadMatlab(self, file, with_axis=None):
@@ -243,7 +244,11 @@ class DataSaveable:
         
         """
         self.set_data_writable()
-        _data = io.loadmat(file)["data"]
+        mat = io.loadmat(file)
+        _data = mat["data"]
+        if ((with_axis is None) and ("ndim" in mat) 
+            and (mat["ndim"].item() == 1)):
+            _data = _data.reshape(-1)
         self.data = self._extract_data_with_axis(_data, with_axis)
         self.set_data_protected()
 
